@@ -246,7 +246,7 @@ func fullCfg(lmtp bool) Cfg {
 	return c
 }
 
-var tripStrings = []string{"plain", "a+b", "a=b", "a b", "a\\b", "{x}", "x{41}", "\\x{41}", "+2B", "\x7f", "café", "日本", "\U0001F600", "a+", "+", "=", "<>", "a@b", "q+3Dr@s", "", "\t"}
+var tripStrings = []string{"100%%", "50%off", "%s%d", "a%41b", "plain", "a+b", "a=b", "a b", "a\\b", "{x}", "x{41}", "\\x{41}", "+2B", "\x7f", "café", "日本", "\U0001F600", "a+", "+", "=", "<>", "a@b", "q+3Dr@s", "", "\t"}
 
 func sp(s string) *string { return &s }
 
@@ -310,7 +310,7 @@ func GenTrip(rng *rand.Rand, thorough bool, emit func(*Sx)) {
 		}
 	}
 	// addresses
-	for _, a := range []string{"a@b", "user.name+tag@example.org", "üser@exämple.org", "x@[1.2.3.4]", "a@b> AUTH=<", "r@s> NOTIFY=NEVER", "a b@c", "", "<>"} {
+	for _, a := range []string{"a@b", "alice%dept.example@relay.example", "100%@x.example", "%s@%d.example", "user.name+tag@example.org", "üser@exämple.org", "x@[1.2.3.4]", "a@b> AUTH=<", "r@s> NOTIFY=NEVER", "a b@c", "", "<>"} {
 		cfg := fullCfg(false)
 		calls := []TripCall{{Kind: "mail", Arg: a, MO: &smtp.MailOptions{UTF8: true}}, {Kind: "rcpt", Arg: a}, {Kind: "quit"}}
 		emit(RunTrip(TripCase{Cfg: cfg, Calls: calls, Extra: []*Sx{L(A("focus"), A("C14"))}}))
